@@ -148,6 +148,8 @@ fn main() {
 pub struct RustcEnv {
     pub rlib: PathBuf,
     pub deps: PathBuf,
+    /// further `--extern name=path` crates (e.g. shuttle for the C27 harness)
+    pub externs: Vec<(String, PathBuf)>,
 }
 
 pub fn rustc_env() -> Result<RustcEnv, String> {
@@ -159,7 +161,7 @@ pub fn rustc_env() -> Result<RustcEnv, String> {
         return Err(format!("rlib {} missing", rlib.display()));
     }
     let deps = rlib.parent().unwrap().to_path_buf();
-    Ok(RustcEnv { rlib, deps })
+    Ok(RustcEnv { rlib, deps, externs: vec![] })
 }
 
 pub struct Built {
@@ -172,6 +174,9 @@ pub struct Built {
 fn rustc_cmd(env: &RustcEnv, dir: &Path, main: &str, out: &str, metadata_only: bool) -> Command {
     let mut c = Command::new("rustc");
     c.current_dir(dir).arg("--edition").arg("2021").arg("--crate-name").arg("implr").arg("--cap-lints").arg("allow").arg("-C").arg("debuginfo=0").arg("-C").arg("codegen-units=4").arg("--extern").arg(format!("lalrpop_util={}", env.rlib.display())).arg("-L").arg(format!("dependency={}", env.deps.display()));
+    for (n, p) in &env.externs {
+        c.arg("--extern").arg(format!("{}={}", n, p.display()));
+    }
     if metadata_only {
         c.arg("--emit=metadata").arg("--crate-type").arg("lib").arg("-o").arg(out);
     } else {
@@ -326,4 +331,11 @@ pub fn run(built: &Built, jobs: &[Job], per_job_timeout_ms: u64) -> Vec<Value> {
         next = todo.get(done).copied().unwrap_or(jobs.len());
     }
     results.into_iter().map(|x| x.unwrap()).collect()
+}
+
+pub fn shuttle_rlib() -> Result<PathBuf, String> {
+    let p = crate::fw::verif_dir().join("target/shuttle.path");
+    let s = std::fs::read_to_string(&p).map_err(|e| format!("{}: {}", p.display(), e))?;
+    let r = PathBuf::from(s.trim());
+    if r.exists() { Ok(r) } else { Err(format!("shuttle rlib {} missing", r.display())) }
 }
